@@ -29,6 +29,9 @@ type ScenParams struct {
 	Pend int    // PAN-OS
 	NoCh bool   // PAN-OS: commit answers "no changes"
 	Vsys int    // PAN-OS: number of vsys with changes (default 1)
+	// NSX: the device already holds the first OnDev services of the target and one obsolete
+	// Netspoc service (so that "what the device holds" matters for the script)
+	OnDev int
 }
 
 func (p ScenParams) id() string {
@@ -38,8 +41,12 @@ func (p ScenParams) id() string {
 		}
 		return 0
 	}
-	return fmt.Sprintf("%s-a%d-r%d-d%d-y%d-e%d-p%d-w%d-s%d-o%d-t%d-c%d-h%s-P%d-n%d-v%d", p.Backend, p.Adds, p.Replaces, p.Dels,
+	id := fmt.Sprintf("%s-a%d-r%d-d%d-y%d-e%d-p%d-w%d-s%d-o%d-t%d-c%d-h%s-P%d-n%d-v%d", p.Backend, p.Adds, p.Replaces, p.Dels,
 		b(p.YesNo), b(p.EnablePW), b(p.PagerOff), b(p.Width511), b(p.SaveAsk), b(p.Overwrite), b(p.IPTables), p.Cmds, p.HA, p.Pend, b(p.NoCh), p.Vsys)
+	if p.OnDev > 0 {
+		id += fmt.Sprintf("-D%d", p.OnDev)
+	}
+	return id
 }
 
 func b2i(b bool) int {
@@ -250,8 +257,15 @@ func nsxScenario(p ScenParams) Scenario {
 		l = append(l, fmt.Sprintf(`{"id": "Netspoc-icmp%d", "service_entries": [{"id": "id", "protocol": "ICMPv4", "icmp_type": %d, "resource_type": "ICMPTypeServiceEntry"}]}`, i, i))
 	}
 	tgt := `{"services": [` + strings.Join(l, ",\n") + `]}`
+	hs := &HTTPScen{}
+	if p.OnDev > 0 {
+		dev := append([]string{}, l[:min(p.OnDev, len(l))]...)
+		dev = append(dev, `{"id": "Netspoc-gone", "service_entries": [{"id": "id", "protocol": "ICMPv4", "icmp_type": 99, "resource_type": "ICMPTypeServiceEntry"}]}`,
+			`{"id": "foreign-service", "service_entries": []}`)
+		hs.Services = fmt.Sprintf(`{"results": [%s], "result_count": %d, "sort_by": "display_name"}`, strings.Join(dev, ",\n"), len(dev))
+	}
 	return Scenario{ID: p.id(), Backend: "NSX",
-		HTTP:    &HTTPScen{},
+		HTTP:    hs,
 		Netspoc: map[string]string{"router": tgt},
 		Shape:   map[string]int{}}
 }
